@@ -583,6 +583,15 @@ func (e *Engine) index(ci *cInstr, x, idx Val) Val {
 }
 
 func (e *Engine) strIndex(x Val, i Sc) Val {
+	if cs, ok := x.(Str); ok && i.t == nil {
+		// concrete string, concrete index: no conversion of the whole string
+		e.boundsCheck(i, len(cs), "index out of range")
+		return u8(uint64(cs[int(i.c)]))
+	}
+	if ss, ok := x.(SStr); ok && i.t == nil {
+		e.boundsCheck(i, len(ss), "index out of range")
+		return ss[int(i.c)]
+	}
 	bs := bytesOf(x)
 	e.boundsCheck(i, len(bs), "index out of range")
 	if i.t != nil {
